@@ -309,13 +309,18 @@ def shadow_chain(draw, backend):
     term = draw(st.sampled_from(["Sum()", "Count()"]))
     free = [i for i, st_ in enumerate(steps) if not st_[2]]
     renamed = draw(st.sets(st.sampled_from(free), min_size=1, max_size=len(free)))
+    # ... and sometimes a lambda that binds another name lies between j and the chain (j is then bound TWO lambdas out)
+    between = draw(st.sampled_from([None, None, f"e.{acc}({bank2!r}).Select(lambda mid: CHAIN)", "Range(0, 2).Select(lambda mid: CHAIN)"]))
 
     def text(shadow):
         t = f"e.{acc}({bank2!r})"
         for i, (kind, body, _m) in enumerate(steps):
             x = "j" if (shadow and i in renamed) else f"p{i}"
             t += f".{kind}(lambda {x}: {body.format(x=x)})"
-        return f"Select({dataset_text(sch)}, lambda e: e.{acc}({bank!r}).Select(lambda j: {t}.{term}))"
+        chain = f"{t}.{term}"
+        if between is not None:
+            chain = between.replace("CHAIN", chain)
+        return f"Select({dataset_text(sch)}, lambda e: e.{acc}({bank!r}).Select(lambda j: {chain}))"
 
     return text(False), text(True), len(renamed)
 
@@ -393,6 +398,34 @@ def cases(draw, backend):
         var, npairs = rel_shadow(base, draw)
         info = {"shadow_pairs": npairs}
     elif rel == "reserved":
+        if draw(st.integers(0, 2)) == 0:
+            # names the TRANSLATOR knows: the root of a namespace this very query declares (define_enum), a function of its table, a collection accessor.
+            # A lambda parameter of that name is the parameter (python's scoping), whatever else the name means outside the lambda.
+            ns = draw(st.sampled_from(["xAOD", "MyNS", "reco"]))
+            md = {"metadata_type": "define_enum", "namespace": ns + ".Obj", "name": "Kind", "values": ["A", "B"]}
+            wrap = lambda t: t.replace("EventDataset('ds')", f"MetaData(EventDataset('ds'), {md!r})", 1)
+            base = parse(wrap(q.text))
+            var = copy.deepcopy(base)
+            used = names_in(var)
+            lambdas = [n for n in ast.walk(var) if isinstance(n, ast.Lambda) and n.args.args]
+            accessors = {c.accessor for c in standard_schema(backend).colls}
+            # (prefer parameters the translator really looks up: the event parameter only ever stands in front of a collection accessor, which drops it)
+            looked_up = [l for l in lambdas if any(isinstance(n, ast.Name) and n.id == l.args.args[0].arg for n in ast.walk(l.body))
+                         and not all(isinstance(p_, ast.Attribute) and p_.attr in accessors for p_ in ast.walk(l.body) if isinstance(p_, ast.Attribute) and isinstance(p_.value, ast.Name) and p_.value.id == l.args.args[0].arg)]
+            if looked_up and draw(st.integers(0, 4)) > 0:
+                lambdas = looked_up
+            nren = 0
+            new = draw(st.sampled_from([ns, ns, ns, "sin", "abs", "DeltaR", "Select", "Jets", "Muons", "First"]))
+            if lambdas and new not in used:
+                node = lambdas[draw(st.integers(0, len(lambdas) - 1))]
+                old = node.args.args[0].arg
+                node.args.args[0].arg = new
+                node.body = _Subst(old, new).visit(node.body)
+                nren = 1
+            var = ast.fix_missing_locations(var)
+            info = {"reserved_names": nren}
+            nested = any(isinstance(n, ast.Lambda) for l in ast.walk(base) if isinstance(l, ast.Lambda) for n in ast.walk(l.body))
+            return {"backend": backend, "rel": "alpha", "a": ast.unparse(base), "b": ast.unparse(var), "b_ast": var, "nested": nested, "info": info, "labels": sorted(q.labels) + ["translator-known-name"]}
         var, nren = rel_reserved(base, draw)
         info = {"reserved_names": nren}
         rel = "alpha"
